@@ -5,6 +5,7 @@ import (
 	"go/ast"
 	"go/token"
 	"go/types"
+	"golang.org/x/tools/go/packages"
 	"os"
 	"path/filepath"
 	"regexp"
@@ -219,12 +220,87 @@ func (e *Env) readBuild(files []*ast.File, info *types.Info) {
 		}
 		return true
 	})
+	execPos := map[types.Object]token.Pos{}
+	if len(lits) == 0 {
+		// the sets are built by a local factory: f := func(fsys fs.FS, name string, patterns ...string) T { return T{…} };
+		// every call f(templates.X, "name", "pattern"…) is one set, executed in the order of the calls
+		var factory types.Object
+		var fparams []*ast.Field
+		ast.Inspect(fd.Body, func(n ast.Node) bool {
+			as, ok := n.(*ast.AssignStmt)
+			if !ok || len(as.Lhs) != 1 || len(as.Rhs) != 1 {
+				return true
+			}
+			fl, ok := ast.Unparen(as.Rhs[0]).(*ast.FuncLit)
+			if !ok || len(fl.Body.List) != 1 {
+				return true
+			}
+			rs, ok := fl.Body.List[0].(*ast.ReturnStmt)
+			if !ok || len(rs.Results) != 1 {
+				return true
+			}
+			if _, ok := ast.Unparen(rs.Results[0]).(*ast.CompositeLit); !ok {
+				return true
+			}
+			if id, ok := as.Lhs[0].(*ast.Ident); ok {
+				factory = info.ObjectOf(id)
+				fparams = fl.Type.Params.List
+			}
+			return true
+		})
+		if factory != nil {
+			ast.Inspect(fd.Body, func(n ast.Node) bool {
+				call, ok := n.(*ast.CallExpr)
+				if !ok {
+					return true
+				}
+				id, ok := ast.Unparen(call.Fun).(*ast.Ident)
+				if !ok || info.ObjectOf(id) != factory {
+					return true
+				}
+				t := tl{obj: types.NewVar(call.Pos(), nil, fmt.Sprintf("set@%d", call.Pos()), nil)}
+				ai := 0
+				for _, f := range fparams {
+					names := len(f.Names)
+					if names == 0 {
+						names = 1
+					}
+					for k := 0; k < names; k++ {
+						ts := types.TypeString(info.TypeOf(f.Type), nil)
+						_, variadic := f.Type.(*ast.Ellipsis)
+						switch {
+						case variadic:
+							for ; ai < len(call.Args); ai++ {
+								if s, ok := load.StringOf(info, call.Args[ai]); ok {
+									t.patterns = append(t.patterns, s)
+								}
+							}
+						case ai < len(call.Args) && ts == "string":
+							t.name, _ = load.StringOf(info, call.Args[ai])
+							ai++
+						case ai < len(call.Args) && (ts == "io/fs.FS" || ts == "embed.FS"):
+							if se, ok := ast.Unparen(call.Args[ai]).(*ast.SelectorExpr); ok {
+								t.fsys = se.Sel.Name
+							}
+							ai++
+						default:
+							ai++
+						}
+					}
+				}
+				if t.name != "" && len(t.patterns) > 0 {
+					lits = append(lits, t)
+					execPos[t.obj] = call.Pos()
+				}
+				return true
+			})
+		}
+	}
 	if len(lits) != 2 {
 		e.problem("Builder.Build: expected two template sets (body, head), found %d", len(lits))
 		return
 	}
 	// execution order: positions of the .exec() calls on the two variables
-	execPos := map[types.Object]token.Pos{}
 	ast.Inspect(fd.Body, func(n ast.Node) bool {
 		call, ok := n.(*ast.CallExpr)
 		if !ok {
@@ -608,112 +684,136 @@ func (e *Env) classifyFunc(info *types.Info, outer *ast.FuncDecl, fl *ast.FuncLi
 
 // tagMapFill checks that map M is filled by M[t.Name][s.Name] = … inside range o.Services / range s.Tags.
 func (e *Env) tagMapFill(info *types.Info, outer *ast.FuncDecl, M types.Object) bool {
-	ok := false
+	// The index is filled as M[tag.Name][service.Name] = … for every tag of every service, in one step or
+	// through a local inner map (loaded from M[tag.Name], stored back when created). Expressions are
+	// recognised by their types (output.Tag / output.Service), loops by what they walk (.Services, .Tags),
+	// whatever their form (range, index loop, locals for the element or its name).
+	isNamedT := func(t types.Type, name string) bool {
+		if t == nil {
+			return false
+		}
+		if p, ok := t.Underlying().(*types.Pointer); ok {
+			t = p.Elem()
+		}
+		n, ok := t.(*types.Named)
+		return ok && n.Obj().Name() == name && n.Obj().Pkg() != nil && strings.HasSuffix(n.Obj().Pkg().Path(), "/"+outRel)
+	}
+	// locals bound to <Tag>.Name / <Service>.Name
+	nameOf := map[types.Object]string{}
+	var nameKind func(x ast.Expr) string
+	nameKind = func(x ast.Expr) string {
+		switch v := ast.Unparen(x).(type) {
+		case *ast.SelectorExpr:
+			if v.Sel.Name == "Name" {
+				switch {
+				case isNamedT(info.TypeOf(v.X), "Tag"):
+					return "tag"
+				case isNamedT(info.TypeOf(v.X), "Service"):
+					return "service"
+				}
+			}
+		case *ast.Ident:
+			return nameOf[info.ObjectOf(v)]
+		}
+		return ""
+	}
 	ast.Inspect(outer.Body, func(n ast.Node) bool {
-		rs, isR := n.(*ast.RangeStmt)
-		if !isR {
+		if as, ok := n.(*ast.AssignStmt); ok && len(as.Lhs) == 1 && len(as.Rhs) == 1 {
+			if id, ok := as.Lhs[0].(*ast.Ident); ok {
+				if k := nameKind(as.Rhs[0]); k != "" {
+					nameOf[info.ObjectOf(id)] = k
+				}
+			}
+		}
+		return true
+	})
+	isMTag := func(x ast.Expr) bool {
+		ix, ok := ast.Unparen(x).(*ast.IndexExpr)
+		if !ok {
+			return false
+		}
+		mid, ok := ast.Unparen(ix.X).(*ast.Ident)
+		return ok && info.ObjectOf(mid) == M && nameKind(ix.Index) == "tag"
+	}
+	walks := func(loop ast.Node, field string) bool {
+		var x ast.Expr
+		switch l := loop.(type) {
+		case *ast.RangeStmt:
+			x = l.X
+		case *ast.ForStmt:
+			// i < len(X)
+			if be, ok := l.Cond.(*ast.BinaryExpr); ok && be.Op == token.LSS {
+				if c, ok := ast.Unparen(be.Y).(*ast.CallExpr); ok && len(c.Args) == 1 {
+					if id, ok := ast.Unparen(c.Fun).(*ast.Ident); ok && id.Name == "len" {
+						x = c.Args[0]
+					}
+				}
+			}
+		}
+		se, ok := ast.Unparen(x).(*ast.SelectorExpr)
+		return ok && se.Sel.Name == field
+	}
+	loaded, storedBack := map[types.Object]bool{}, map[types.Object]bool{}
+	ast.Inspect(outer.Body, func(n ast.Node) bool {
+		as, ok := n.(*ast.AssignStmt)
+		if !ok || len(as.Rhs) != 1 {
 			return true
 		}
-		se, isSel := ast.Unparen(rs.X).(*ast.SelectorExpr)
-		if !isSel || se.Sel.Name != "Services" {
+		if isMTag(as.Rhs[0]) && len(as.Lhs) >= 1 {
+			if id, ok := as.Lhs[0].(*ast.Ident); ok {
+				loaded[info.ObjectOf(id)] = true
+			}
+		}
+		if len(as.Lhs) == 1 && isMTag(as.Lhs[0]) {
+			if id, ok := ast.Unparen(as.Rhs[0]).(*ast.Ident); ok {
+				storedBack[info.ObjectOf(id)] = true
+			}
+		}
+		return true
+	})
+	ok := false
+	var stack []ast.Node
+	ast.Inspect(outer.Body, func(n ast.Node) bool {
+		if n == nil {
+			stack = stack[:len(stack)-1]
 			return true
 		}
-		sv, _ := rs.Value.(*ast.Ident)
-		if sv == nil {
+		stack = append(stack, n)
+		as, isA := n.(*ast.AssignStmt)
+		if !isA || len(as.Lhs) != 1 {
 			return true
 		}
-		ast.Inspect(rs.Body, func(n2 ast.Node) bool {
-			rs2, isR2 := n2.(*ast.RangeStmt)
-			if !isR2 {
-				return true
-			}
-			se2, isSel2 := ast.Unparen(rs2.X).(*ast.SelectorExpr)
-			if !isSel2 || se2.Sel.Name != "Tags" {
-				return true
-			}
-			tv, _ := rs2.Value.(*ast.Ident)
-			if tv == nil {
-				return true
-			}
-			ast.Inspect(rs2.Body, func(n3 ast.Node) bool {
-				as, isA := n3.(*ast.AssignStmt)
-				if !isA || len(as.Lhs) != 1 {
-					return true
-				}
-				ix, isIx := ast.Unparen(as.Lhs[0]).(*ast.IndexExpr)
-				if !isIx {
-					return true
-				}
-				in, isIn := ast.Unparen(ix.X).(*ast.IndexExpr)
-				if !isIn {
-					return true
-				}
-				mid, isM := ast.Unparen(in.X).(*ast.Ident)
-				if !isM || info.ObjectOf(mid) != M {
-					return true
-				}
-				selOn := func(x ast.Expr, v *ast.Ident) bool {
-					s, isS := ast.Unparen(x).(*ast.SelectorExpr)
-					if !isS || s.Sel.Name != "Name" {
-						return false
-					}
-					id, isI := ast.Unparen(s.X).(*ast.Ident)
-					return isI && info.ObjectOf(id) == info.ObjectOf(v)
-				}
-				if selOn(in.Index, tv) && selOn(ix.Index, sv) {
-					ok = true
-				}
-				return true
-			})
-			// two-step form: inner, found := M[tag.Name]; if !found { inner = make(…); M[tag.Name] = inner }; inner[service.Name] = …
-			selOn := func(x ast.Expr, v *ast.Ident) bool {
-				s, isS := ast.Unparen(x).(*ast.SelectorExpr)
-				if !isS || s.Sel.Name != "Name" {
-					return false
-				}
-				id, isI := ast.Unparen(s.X).(*ast.Ident)
-				return isI && info.ObjectOf(id) == info.ObjectOf(v)
-			}
-			isMTag := func(x ast.Expr) bool {
-				ix, isIx := ast.Unparen(x).(*ast.IndexExpr)
-				if !isIx {
-					return false
-				}
-				mid, isM := ast.Unparen(ix.X).(*ast.Ident)
-				return isM && info.ObjectOf(mid) == M && selOn(ix.Index, tv)
-			}
-			loaded, storedBack, filled := map[types.Object]bool{}, map[types.Object]bool{}, map[types.Object]bool{}
-			ast.Inspect(rs2.Body, func(n3 ast.Node) bool {
-				as, isA := n3.(*ast.AssignStmt)
-				if !isA || len(as.Rhs) != 1 {
-					return true
-				}
-				if isMTag(as.Rhs[0]) && len(as.Lhs) >= 1 {
-					if id, isI := as.Lhs[0].(*ast.Ident); isI {
-						loaded[info.ObjectOf(id)] = true
-					}
-				}
-				if len(as.Lhs) == 1 && isMTag(as.Lhs[0]) {
-					if id, isI := ast.Unparen(as.Rhs[0]).(*ast.Ident); isI {
-						storedBack[info.ObjectOf(id)] = true
-					}
-				}
-				if len(as.Lhs) == 1 {
-					if ix, isIx := ast.Unparen(as.Lhs[0]).(*ast.IndexExpr); isIx && selOn(ix.Index, sv) {
-						if id, isI := ast.Unparen(ix.X).(*ast.Ident); isI {
-							filled[info.ObjectOf(id)] = true
-						}
-					}
-				}
-				return true
-			})
-			for o := range filled {
-				if loaded[o] && storedBack[o] {
-					ok = true
-				}
-			}
+		ix, isIx := ast.Unparen(as.Lhs[0]).(*ast.IndexExpr)
+		if !isIx || nameKind(ix.Index) != "service" {
 			return true
-		})
+		}
+		target := false
+		if isMTag(ix.X) {
+			target = true
+		} else if id, isId := ast.Unparen(ix.X).(*ast.Ident); isId && loaded[info.ObjectOf(id)] && storedBack[info.ObjectOf(id)] {
+			target = true
+		}
+		if !target {
+			return true
+		}
+		// enclosing statements: a loop over .Services around a loop over .Tags, and no conditional
+		svcLoop, tagLoop, cond := false, false, false
+		for _, anc := range stack[:len(stack)-1] {
+			switch anc.(type) {
+			case *ast.RangeStmt, *ast.ForStmt:
+				if walks(anc, "Services") {
+					svcLoop = true
+				}
+				if walks(anc, "Tags") && svcLoop {
+					tagLoop = true
+				}
+			case *ast.IfStmt, *ast.SwitchStmt, *ast.CaseClause:
+				cond = true
+			}
+		}
+		if svcLoop && tagLoop && !cond {
+			ok = true
+		}
 		return true
 	})
 	return ok
@@ -740,11 +840,24 @@ func (e *Env) readMethods() {
 			if !ok || len(rs.Results) != 1 {
 				continue
 			}
+			recv := pk.TypesInfo.ObjectOf(fd.Recv.List[0].Names[0])
+			// `return recv.eq(Const)` with eq a method of the same type whose body is `return recv == param`
+			if call, isCall := ast.Unparen(rs.Results[0]).(*ast.CallExpr); isCall && len(call.Args) == 1 {
+				if se, isSel := ast.Unparen(call.Fun).(*ast.SelectorExpr); isSel {
+					if id, isId := ast.Unparen(se.X).(*ast.Ident); isId && pk.TypesInfo.ObjectOf(id) == recv && e.isEqualityMethod(pk, rt.Name, se.Sel.Name) {
+						if cid, isC := ast.Unparen(call.Args[0]).(*ast.Ident); isC {
+							if c, isConst := pk.TypesInfo.ObjectOf(cid).(*types.Const); isConst {
+								e.Methods[rt.Name+"."+fd.Name.Name] = c
+							}
+						}
+					}
+				}
+				continue
+			}
 			be, ok := ast.Unparen(rs.Results[0]).(*ast.BinaryExpr)
 			if !ok || be.Op != token.EQL {
 				continue
 			}
-			recv := pk.TypesInfo.ObjectOf(fd.Recv.List[0].Names[0])
 			var other ast.Expr
 			if id, ok := ast.Unparen(be.X).(*ast.Ident); ok && pk.TypesInfo.ObjectOf(id) == recv {
 				other = be.Y
@@ -761,6 +874,43 @@ func (e *Env) readMethods() {
 			}
 		}
 	}
+}
+
+// isEqualityMethod: type T has a method m(x T) bool whose body is `return recv == x` (either order).
+func (e *Env) isEqualityMethod(pk *packages.Package, tname, mname string) bool {
+	for _, f := range pk.Syntax {
+		for _, d := range f.Decls {
+			fd, ok := d.(*ast.FuncDecl)
+			if !ok || fd.Recv == nil || fd.Body == nil || fd.Name.Name != mname || len(fd.Recv.List) != 1 || len(fd.Recv.List[0].Names) != 1 {
+				continue
+			}
+			if rt, ok := fd.Recv.List[0].Type.(*ast.Ident); !ok || rt.Name != tname {
+				continue
+			}
+			if fd.Type.Params.NumFields() != 1 || len(fd.Type.Params.List[0].Names) != 1 || len(fd.Body.List) != 1 {
+				continue
+			}
+			rs, ok := fd.Body.List[0].(*ast.ReturnStmt)
+			if !ok || len(rs.Results) != 1 {
+				continue
+			}
+			be, ok := ast.Unparen(rs.Results[0]).(*ast.BinaryExpr)
+			if !ok || be.Op != token.EQL {
+				continue
+			}
+			recv := pk.TypesInfo.ObjectOf(fd.Recv.List[0].Names[0])
+			prm := pk.TypesInfo.ObjectOf(fd.Type.Params.List[0].Names[0])
+			x, ok1 := ast.Unparen(be.X).(*ast.Ident)
+			y, ok2 := ast.Unparen(be.Y).(*ast.Ident)
+			if ok1 && ok2 {
+				ox, oy := pk.TypesInfo.ObjectOf(x), pk.TypesInfo.ObjectOf(y)
+				if (ox == recv && oy == prm) || (ox == prm && oy == recv) {
+					return true
+				}
+			}
+		}
+	}
+	return false
 }
 
 // ConstsOf returns the constants of the named type rel.name in declaration order of value.
